@@ -11,122 +11,363 @@ LEVEL_TEXT = ("(1) Metatheorem NI-world (Lean, all task lists / interleavings / 
               "visible state of world w is computed by w's own tasks alone. (2) Instance side conditions by kernel `decide` on the access table regenerated from ALL 301 kernels / 312 launches of "
               "/repo on every run: every access to an nworld-led Data array has the world id as leading index (2 named, harmless exceptions), shared Model fields are never written, global counters "
               "are only touched atomically except reset_data's nacon (C13 finding). The reading 'leading index class => own slice' is the extractor's (trusted); it is exercised by the "
-              "batch-position differential: each world alone vs inside a batch at another index, bit for bit.")
-LEVEL_NOTE = ("C09_partial: flat contact/collision buffers (ownership by world tag) and index expressions beyond the leading one are covered by the differential only; the shared naconmax budget is the one "
-              "legitimate coupling (excluded by the property: 'provided no overflow is reported'). Trusted: Lean kernel, E3 extractor (harness/translate/graph.py).")
+              "batch-position differential: each world alone vs inside a batch at another index, bit for bit — on random rigid trees AND on cloth scenes whose contacts go through the shared flat "
+              "flex candidate buffer (sorted, de-duplicated and capped per (world, geom|flex, flex) group key): every group kind occupied in every world, more than MJ_MAXCONPAIR candidates per "
+              "cloth pair, models with 0..3 geoms and 2..3 flexes, self-collision, worlds that differ in state only; the complete contact records of a world are compared bitwise.")
+LEVEL_NOTE = ("C09_partial: flat contact/collision buffers (ownership by world tag, group keys built from the world id) and index expressions beyond the leading one are covered by the differential only; "
+              "the shared naconmax budget is the one legitimate coupling (excluded by the property: 'provided no overflow is reported'). Cloth scenes: runs are stepped in lock-step and re-synchronised bitwise to the batch after every step (one-step "
+              "non-interference from identical states, by induction the history); contacts bitwise as sets, states after the step to 2e-3 relative only, because the ORDER of a world's cloth-pair "
+              "contacts in the flat buffer (hence row and summation order) depends on its neighbours (hit flex-state-equal-up-to-roundoff-only); sensor stage disabled (no sensors in the models; "
+              "sensor_acc's tactile preprocessing indexes geom_bodyid with the -1 geom ids of flex contacts). `collision_flex._compute_filter_key` (int64 key packing) is not a translator target, so "
+              "the world-separation of group keys has no theorem. Trusted: Lean kernel, E3 extractor (harness/translate/graph.py).")
 ASSUMPTIONS = ["CPU execution: per-world arithmetic order is unchanged by batching, so results are compared exactly"]
 
+# ------------------------------------------------------------------------------------------------------------------------------
+# cloth scenes: contacts that pass through the flat flex candidate buffer shared by all worlds
 
-def _run(ctx, ncases, nsteps):
+R, SP = 0.01, 0.04           # vertex radius, grid spacing
+Z0, DZ = 0.009, 0.018        # height of a cloth lying on the floor (1 mm into it); height difference of a cloth lying on a cloth
+FLEX_KINDS = ("overlap", "nogeom", "three", "self")
+MAXCONPAIR = 50              # MuJoCo's mjMAXCONPAIR: cap on the contacts of one flex-flex pair
+
+
+def _flex_scene(rng, kind, nworld, lifted):
+  """A scene of cloths (flexcomp grids: every vertex is a body with three slide joints, so ANY vertex placement is a qpos) built so
+  that the candidate GROUPS of the shared flex candidate buffer are densely occupied in every world: every cloth touches the floor
+  (if there is one), an upper cloth lies with most of its area on a lower one (more than MJ_MAXCONPAIR flex-flex candidates: the
+  farthest-point cap is active) and with the rest on the floor, a folded cloth collides with itself, 0..2 fixed geoms press on a
+  cloth.  With every group occupied in neighbouring worlds, ANY confusion of groups across worlds changes some world's contacts.
+  Worlds differ in state only.  Returns (xml, mjm, states, info)."""
+  import mujoco
+  n = int(rng.integers(6, 8))
+  floor = kind != "nogeom"
+  cloths = []   # (name, (count x, count y), centre of the grid, selfcollide)
+  if kind == "self":
+    cloths.append(("A", (2 * n - 1, n), (0.0, 0.0, Z0), "auto"))
+    cloths.append(("C", (4, 4), (0.0, (n / 2 + 3) * SP, Z0), "none"))
+  else:
+    cloths.append(("A", (n, n), (0.0, 0.0, Z0), "none"))
+    cloths.append(("B", (n, n), (2 * SP, 0.0, Z0 + DZ), "none"))
+    if kind == "three":
+      cloths.append(("C", (4, 4), (0.0, (n / 2 + 3) * SP, Z0), "none"))
+  order = [int(i) for i in rng.permutation(len(cloths))]       # declaration order = flex ids
+  geoms = '<geom name="floor" type="plane" size="0 0 1"/>' if floor else ""
+  nextra = int(rng.integers(0, 3)) if floor else 0
+  xa = -(cloths[0][1][0] - 1) / 2 * SP
+  ya = -(cloths[0][1][1] - 1) / 2 * SP
+  if nextra >= 1:   # a fixed sphere pressing on a corner of A that no other cloth covers
+    geoms += f'\n    <geom name="s1" type="sphere" size="0.02" pos="{xa:.4f} {ya:.4f} {Z0 + R + 0.02 - 0.002:.4f}"/>'
+  if nextra >= 2:   # a fixed box pressing on the other such corner
+    geoms += f'\n    <geom name="b1" type="box" size="0.02 0.02 0.02" pos="{xa:.4f} {-ya:.4f} {Z0 + R + 0.02 - 0.002:.4f}"/>'
+  fl = ""
+  for i in order:
+    nm, (cx, cy), (x, y, z), sc = cloths[i]
+    fl += (f'\n    <flexcomp name="{nm}" type="grid" count="{cx} {cy} 1" spacing="{SP} {SP} {SP}" pos="{x:.4f} {y:.4f} {z:.4f}" radius="{R}" dim="2" mass="0.2">'
+           f'\n      <contact selfcollide="{sc}" contype="1" conaffinity="1"/>\n      <edge equality="true"/>\n    </flexcomp>')
+  # the sensor stage is disabled: the models have no sensors, and sensor_acc's unconditional tactile preprocessing indexes
+  # geom_bodyid with the geom ids of every contact, which are -1 for flex contacts (a crash for ngeom == 0; C17's business)
+  xml = f"""<mujoco>
+  <option timestep="0.002"><flag sensor="disable"/></option>
+  <worldbody>
+    {geoms}{fl}
+  </worldbody>
+</mujoco>
+"""
+  mjm = mujoco.MjModel.from_xml_string(xml)
+  md = mujoco.MjData(mjm)
+  mujoco.mj_forward(mjm, md)
+  vx = md.flexvert_xpos.copy()
+  adr = np.array([mjm.jnt_qposadr[mjm.body_jntadr[mjm.flex_vertbodyid[v]]] for v in range(mjm.nflexvert)])
+  fid = {c[0]: mujoco.mj_name2id(mjm, mujoco.mjtObj.mjOBJ_FLEX, c[0]) for c in cloths}
+  verts = {nm: np.arange(mjm.flex_vertadr[f], mjm.flex_vertadr[f] + mjm.flex_vertnum[f]) for nm, f in fid.items()}
+  base = np.zeros(mjm.nq)
+  if kind == "self":
+    # fold A along x = 0: the x > 0 half is mirrored onto the x < 0 half, one cloth thickness higher
+    upper = [v for v in verts["A"] if vx[v][0] > 1e-9]
+    for v in upper:
+      base[adr[v]:adr[v] + 3] = [-2 * vx[v][0] + 0.004, 0.0, DZ + 0.001]
+  else:
+    # B lies on A where it is over A; the columns of B beyond A's edge lie on the floor
+    upper = list(verts["B"])
+    for v in upper:
+      if vx[v][0] > -xa + 0.5 * SP:
+        base[adr[v] + 2] = -DZ
+  states = []
+  for w in range(nworld):
+    q, v_, f_ = base.copy(), np.zeros(mjm.nv), np.zeros(mjm.nv)
+    if w > 0:
+      q += 0.001 * rng.standard_normal(mjm.nq)
+      v_ = 0.05 * rng.standard_normal(mjm.nv)
+      f_ = 0.002 * rng.standard_normal(mjm.nv)
+      dx, dy = rng.uniform(-0.012, 0.012, size=2)
+      for v in upper:
+        q[adr[v]] += dx
+        q[adr[v] + 1] += dy
+    if lifted and w == nworld - 1:
+      for v in upper:
+        q[adr[v] + 2] += 0.05      # this world has no cloth-on-cloth candidates at all: its groups are missing from the sorted buffer
+    states.append((q, v_, f_))
+  info = {"kind": kind, "n": n, "flex_order": order, "ngeom": int(mjm.ngeom), "nflex": int(mjm.nflex), "nv": int(mjm.nv), "lifted": bool(lifted)}
+  return xml, mjm, states, info
+
+
+def _contact_records(d, nworld):
+  """per world: ALL fields of its reported contacts as one integer matrix (floats by bit pattern), rows sorted — the order of a
+  world's contacts in the flat buffer is not part of the property — plus the number of contacts per flex-flex pair."""
+  n = int(min(d.nacon.numpy()[0], d.naconmax))
+  c = d.contact
+  wid = c.worldid.numpy()[:n]
+  def col(a):
+    a = a.numpy()
+    if a.shape[0] < n:      # flex/elem/vert are not allocated for a model without flexes
+      return np.full((n, 2), -1, dtype=np.int64)
+    a = a[:n]
+    return a.reshape(n, int(np.prod(a.shape[1:], dtype=np.int64)))
+  ints = [col(getattr(c, nm)) for nm in ("geom", "flex", "elem", "vert", "dim", "type")]
+  flts = [col(getattr(c, nm)) for nm in ("dist", "pos", "frame", "includemargin", "friction", "solref", "solreffriction", "solimp")]
+  mat = np.concatenate([a.astype(np.int64) for a in ints] + [np.ascontiguousarray(a, dtype=np.float32).view(np.int32).astype(np.int64) for a in flts], axis=1)
+  out = []
+  for w in range(nworld):
+    rows = mat[wid == w]
+    rows = rows[np.lexsort(rows.T[::-1])] if len(rows) else rows
+    ff = rows[(rows[:, 0] < 0) & (rows[:, 1] < 0)][:, 2:4] if len(rows) else np.zeros((0, 2), dtype=np.int64)
+    pairs = {}
+    for a, b in ff.tolist():
+      pairs[(a, b)] = pairs.get((a, b), 0) + 1
+    out.append((rows, pairs))
+  return out
+
+
+def _tree_case(rng, c):
+  import mujoco
+  from harness.gen import models
+  sleep = rng.random() < 0.25
+  sparse = rng.random() < 0.3
+  opt = 'timestep="0.004"' + (' cone="elliptic"' if rng.random() < 0.4 else "") + (' jacobian="sparse"' if sparse else "")
+  crossed = c == 0
+  if crossed:
+    sparse = False
+    # two long thin free boxes: whether they touch depends on the ORIENTATION of the second one only, which differs per world —
+    # the broadphase AABB/OBB filters (closure-built device functions the access table cannot see) must use each world's own pose
+    sleep = False
+    opt = opt.replace(' jacobian="sparse"', '')
+    wb = ('<body pos="0 0 0.5"><freejoint/><geom type="box" size=".3 .03 .03"/></body>'
+          '<body pos="0 0.25 0.55"><freejoint/><geom type="box" size=".3 .03 .03"/></body>')
+  else:
+    wb, sp = models.random_tree(rng, nbody=int(rng.integers(2, 6)), geom_types=["sphere", "capsule", "box"], spread=0.4, sites=False)
+  xml = models.wrap(wb, option=opt)
+  if sleep:
+    xml = xml.replace("<option ", '<option><flag sleep="enable"/></option>\n  <option ')
+  mjm = mujoco.MjModel.from_xml_string(xml)
+  nworld = int(rng.integers(2, 5))
+  states = []
+  for w in range(nworld if not crossed else 0):
+    md = mujoco.MjData(mjm)
+    models.random_state(rng, mjm, md, qpos_scale=0.2, qvel_scale=1.0, unnormalized=False)
+    for j in range(mjm.njnt):
+      if mjm.jnt_type[j] == 0:
+        md.qpos[mjm.jnt_qposadr[j] + 2] = rng.uniform(0.05, 0.6)
+    states.append((md.qpos.copy(), md.qvel.copy(), rng.normal(size=mjm.nv) * 0.3))
+  if crossed:
+    for w in range(nworld):
+      md = mujoco.MjData(mjm)
+      ang = 0.0 if w == 0 else float(rng.uniform(1.2, 1.9))     # world 0 parallel (apart), the others crossing (touching)
+      md.qpos[10:14] = [np.cos(ang / 2), 0, 0, np.sin(ang / 2)]
+      states.append((md.qpos.copy(), np.zeros(mjm.nv), np.zeros(mjm.nv)))
+  return {"xml": xml, "mjm": mjm, "states": states, "nworld": nworld, "sleep": sleep, "sparse": sparse}
+
+
+def _check_case(acc, rng, case, c, nsteps):
+  """runs the case's worlds as a batch, as a permuted batch and each alone; compares per world (rigid trees: bit for bit)"""
   import mujoco
   import mujoco_warp as mjw
-  from harness.gen import models
   from harness import mjw_util
+  mjm, states, nworld, sleep, xml = case["mjm"], case["states"], case["nworld"], case["sleep"], case["xml"]
+  m = mjw.put_model(mjm)
+  sparse = case["sparse"]
+  md0 = mujoco.MjData(mjm)
+
+  def run(idx_list):
+    d = mjw.put_data(mjm, md0, nworld=len(idx_list), naconmax=200 * len(idx_list), njmax=400)
+    mjw_util.set_rows(d.qpos, np.stack([states[i][0] for i in idx_list]))
+    mjw_util.set_rows(d.qvel, np.stack([states[i][1] for i in idx_list]))
+    mjw_util.set_rows(d.qfrc_applied, np.stack([states[i][2] for i in idx_list]))
+    traj = []
+    for _ in range(nsteps):
+      mjw.step(m, d)
+      traj.append((d.qpos.numpy().copy(), d.qvel.numpy().copy(), d.qacc.numpy().copy(), [world_contacts(d, k) for k in range(len(idx_list))], d.overflow.numpy().copy(),
+                   _contact_records(d, len(idx_list))))
+    return traj
+
+  if sleep and sparse:
+    # regression (repaired defect c4777c0): the sleep-enabled (compacted) solve over a sparse model read an uninitialised
+    # qfrc_constraint buffer and was not even deterministic for ONE world
+    r1, r2 = run([0]), run([0])
+    acc.evals += 2
+    if not all(np.array_equal(a[0], b[0], equal_nan=False) for a, b in zip(r1, r2)):
+      acc.find("world 0 alone, twice, identical inputs: different (or NaN) trajectories with sleeping enabled and a sparse Jacobian", "forward.step",
+               "nondeterministic-baseline", xml=xml)
+      acc.hit("nondeterministic-baseline")
+      return
+  batch = run(list(range(nworld)))
+  perm = list(rng.permutation(nworld))
+  batch2 = run(perm)
+  acc.evals += 2
+  if any((t[4] != 0).any() for t in batch):
+    acc.hit("overflow-skipped")
+    return
+  for w in range(nworld):
+    alone = run([w])
+    acc.evals += 1
+    pos_in_perm = perm.index(w)
+    lastbits = False
+    for s in range(nsteps):
+      if lastbits:
+        break   # from the first last-bit difference on, the two runs are different trajectories (contacts are compared after rounding)
+      stop = False
+      for k, nm in enumerate(("qpos", "qvel", "qacc")):
+        a, b, b2 = alone[s][k][0], batch[s][k][w], batch2[s][k][pos_in_perm]
+        if not (np.array_equal(a, b) and np.array_equal(a, b2)):
+          stop = True
+          if sparse and np.array_equal(b, b2) and np.allclose(a, b, rtol=2e-3, atol=2e-3 * (1 + np.abs(a).max())):
+            # recorded deviation: independent of the batch POSITION (b == b2 bitwise) but not of the batch SIZE, in the last bits:
+            # the sparse Newton Hessian J^T D J is accumulated in a number of row groups chosen from nworld (summation order)
+            acc.find(f"world {w}: {nm} at step {s} differs in the last bits between running alone and in a batch of {nworld} (max diff {np.abs(a - b).max():.3g}; same at every batch position)",
+                     "solver (_jtdaj_groups_per_world)", "batch-size-summation-order", xml=xml, world=w, step=s)
+            lastbits = True
+            break
+          acc.find(f"world {w}: {nm} at step {s} differs between running alone / at batch index {w} / at index {pos_in_perm} (max diff {max(np.abs(a - b).max(), np.abs(a - b2).max()):.3g})",
+                   "forward.step", "batch-dependence", xml=xml, world=w, step=s, sleep=sleep)
+          break
+      if not lastbits and alone[s][3][0] != batch[s][3][w]:
+        acc.find(f"world {w}: contact list at step {s} differs between alone and batch", "collision", "batch-contacts", xml=xml, world=w, step=s)
+        stop = True
+      # the contacts reported by step s are a function of the state BEFORE step s, which is bitwise the same in the three runs here
+      # (the loop is left at the first difference): every field of every contact of the world must agree bitwise (rows sorted)
+      ra, rb, rb2 = alone[s][5][0][0], batch[s][5][w][0], batch2[s][5][pos_in_perm][0]
+      if not stop and not (ra.shape == rb.shape == rb2.shape and np.array_equal(ra, rb) and np.array_equal(ra, rb2)):
+        acc.find(f"world {w}: the contacts reported by step {s} (all fields, bitwise, sorted) differ between alone ({len(ra)}) / batch index {w} ({len(rb)}) / index {pos_in_perm} of the "
+                 f"permuted batch ({len(rb2)}) although the states before the step are bitwise equal", "collision", "batch-contacts", xml=xml, world=w, step=s)
+        stop = True
+      if stop:
+        break
+    acc.distinct.add((c, w))
+  acc.hit("sleep" if sleep else "nosleep")
+  acc.sample({"nbody": int(mjm.nbody), "nworld": nworld, "perm": [int(x) for x in perm], "sleep": sleep})
+
+
+FLEX_SITE = "collision_flex (shared candidate buffer: group keys, duplicate filter, pair cap)"
+
+
+def _check_flex_case(acc, rng, case, c, nsteps):
+  """cloth scene: the batch, a permuted batch (never the identity) and every world alone are stepped in LOCK-STEP; after every step
+  the permuted batch and the alone runs are re-synchronised to the batch's state (qpos, qvel, qacc_warmstart, bitwise), so that
+  every step starts from bitwise identical per-world states in all runs: the contacts the step reports (a function of that state)
+  must be bitwise the same set, the state after the step the same up to round-off.  (Round-off, not bitwise: the ORDER of a world's
+  cloth-pair candidates in the flat buffer depends on its neighbours — the sweep kernel strides over the work packages of all
+  worlds — and with it the order of the constraint rows and of the solver's sums.)  By induction over the steps this is the
+  property for the whole history."""
+  import mujoco
+  import mujoco_warp as mjw
+  from harness import mjw_util
+  mjm, states, nworld, xml, info = case["mjm"], case["states"], case["nworld"], case["xml"], case["flex"]
+  m = mjw.put_model(mjm)
+  md0 = mujoco.MjData(mjm)
+  replay = {"xml": xml, "flex": info, "qpos": [s[0].tolist() for s in states], "qvel": [s[1].tolist() for s in states], "qfrc_applied": [s[2].tolist() for s in states]}
+
+  def make(idx_list):
+    d = mjw.put_data(mjm, md0, nworld=len(idx_list), naconmax=3000 * len(idx_list), njmax=3000)
+    mjw_util.set_rows(d.qpos, np.stack([states[i][0] for i in idx_list]))
+    mjw_util.set_rows(d.qvel, np.stack([states[i][1] for i in idx_list]))
+    mjw_util.set_rows(d.qfrc_applied, np.stack([states[i][2] for i in idx_list]))
+    return d
+
+  perm = [int(x) for x in rng.permutation(nworld)]
+  if perm == list(range(nworld)):
+    perm = perm[1:] + perm[:1]
+  runs = [make(list(range(nworld))), make(perm)] + [make([w]) for w in range(nworld)]
+  live = set(range(nworld))
+  for s in range(nsteps):
+    for d in runs:
+      mjw.step(m, d)
+    acc.evals += len(runs)
+    if any((d.overflow.numpy() != 0).any() for d in runs):
+      acc.hit("overflow-skipped")
+      return
+    rec = [_contact_records(d, d.nworld) for d in runs]
+    st = [{nm: getattr(d, nm).numpy().copy() for nm in ("qpos", "qvel", "qacc", "qacc_warmstart")} for d in runs]
+    for w in sorted(live):
+      pw = perm.index(w)
+      (ra, pa), (rb, pb), (rb2, pb2) = rec[2 + w][0], rec[0][w], rec[1][pw]
+      if any(v == MAXCONPAIR for v in pa.values()):
+        acc.hit("flex-pair-cap-active")          # alone, a cloth pair of this world has exactly MJ_MAXCONPAIR contacts: the farthest-point cap acted
+      if any(a == b for a, b in pa):
+        acc.hit("flex-self-contacts")
+      if any(a != b for a, b in pa):
+        acc.hit("flex-flex-contacts")
+      if len(ra) and (ra[:, 0] >= 0).any():
+        acc.hit("flex-geom-contacts")
+      if not (ra.shape == rb.shape == rb2.shape and np.array_equal(ra, rb) and np.array_equal(ra, rb2)):
+        acc.find(f"world {w}: from bitwise identical states, the contacts reported by step {s} differ between running alone ({len(ra)} contacts, per cloth pair {pa}) / at batch index {w} "
+                 f"({len(rb)}, {pb}) / at index {pw} of the permuted batch ({len(rb2)}, {pb2}); ngeom {mjm.ngeom}, nflex {mjm.nflex}, {nworld} worlds",
+                 FLEX_SITE, "batch-flex-contacts", world=w, step=s, perm=perm, **replay)
+        live.discard(w)
+        continue
+      for nm in ("qpos", "qvel", "qacc"):
+        a, b, b2 = st[2 + w][nm][0], st[0][nm][w], st[1][nm][pw]
+        if np.array_equal(a, b) and np.array_equal(a, b2):
+          continue
+        tol = 2e-3 * (1 + np.abs(a).max())
+        if np.allclose(a, b, rtol=2e-3, atol=tol) and np.allclose(a, b2, rtol=2e-3, atol=tol):
+          acc.hit("flex-state-equal-up-to-roundoff-only")
+          continue
+        acc.find(f"world {w}: from bitwise identical states and with identical contacts, {nm} after step {s} differs between running alone / at batch index {w} / at index {pw} of the permuted "
+                 f"batch (max diff {max(np.abs(a - b).max(), np.abs(a - b2).max()):.3g}, scale {np.abs(a).max():.3g})", "forward.step", "batch-dependence", world=w, step=s, perm=perm, **replay)
+        live.discard(w)
+        break
+      acc.distinct.add((c, w, s))
+    # re-synchronise: every run continues from the batch's state
+    for nm in ("qpos", "qvel", "qacc_warmstart"):
+      v = st[0][nm]
+      mjw_util.set_rows(getattr(runs[1], nm), v[perm])
+      for w in range(nworld):
+        mjw_util.set_rows(getattr(runs[2 + w], nm), v[w:w + 1])
+  acc.hit("flex-" + info["kind"])
+  acc.hit("flex-ngeom%d-nflex%d" % (info["ngeom"], info["nflex"]))
+  if info["lifted"]:
+    acc.hit("flex-one-world-without-cloth-pair-candidates")
+  acc.sample({"nworld": nworld, "perm": perm, "flex": info}, limit=6)
+
+
+def _run(ctx, ncases, nsteps, nflex_cases=2, flex_steps=2):
   rng = np.random.default_rng(ctx.seed * 1000 + 9)
   acc = Acc()
   for c in range(ncases):
-    sleep = rng.random() < 0.25
-    sparse = rng.random() < 0.3
-    opt = 'timestep="0.004"' + (' cone="elliptic"' if rng.random() < 0.4 else "") + (' jacobian="sparse"' if sparse else "")
-    crossed = c == 0
-    if crossed:
-      sparse = False
-      # two long thin free boxes: whether they touch depends on the ORIENTATION of the second one only, which differs per world —
-      # the broadphase AABB/OBB filters (closure-built device functions the access table cannot see) must use each world's own pose
-      sleep = False
-      opt = opt.replace(' jacobian="sparse"', '')
-      wb = ('<body pos="0 0 0.5"><freejoint/><geom type="box" size=".3 .03 .03"/></body>'
-            '<body pos="0 0.25 0.55"><freejoint/><geom type="box" size=".3 .03 .03"/></body>')
-    else:
-      wb, sp = models.random_tree(rng, nbody=int(rng.integers(2, 6)), geom_types=["sphere", "capsule", "box"], spread=0.4, sites=False)
-    xml = models.wrap(wb, option=opt)
-    if sleep:
-      xml = xml.replace("<option ", '<option><flag sleep="enable"/></option>\n  <option ')
-    mjm = mujoco.MjModel.from_xml_string(xml)
-    nworld = int(rng.integers(2, 5))
-    states = []
-    for w in range(nworld if not crossed else 0):
-      md = mujoco.MjData(mjm)
-      models.random_state(rng, mjm, md, qpos_scale=0.2, qvel_scale=1.0, unnormalized=False)
-      for j in range(mjm.njnt):
-        if mjm.jnt_type[j] == 0:
-          md.qpos[mjm.jnt_qposadr[j] + 2] = rng.uniform(0.05, 0.6)
-      states.append((md.qpos.copy(), md.qvel.copy(), rng.normal(size=mjm.nv) * 0.3))
-    if crossed:
-      for w in range(nworld):
-        md = mujoco.MjData(mjm)
-        ang = 0.0 if w == 0 else float(rng.uniform(1.2, 1.9))     # world 0 parallel (apart), the others crossing (touching)
-        md.qpos[10:14] = [np.cos(ang / 2), 0, 0, np.sin(ang / 2)]
-        states.append((md.qpos.copy(), np.zeros(mjm.nv), np.zeros(mjm.nv)))
-    m = mjw.put_model(mjm)
-    md0 = mujoco.MjData(mjm)
-
-    def run(idx_list):
-      d = mjw.put_data(mjm, md0, nworld=len(idx_list), naconmax=200 * len(idx_list), njmax=400)
-      mjw_util.set_rows(d.qpos, np.stack([states[i][0] for i in idx_list]))
-      mjw_util.set_rows(d.qvel, np.stack([states[i][1] for i in idx_list]))
-      mjw_util.set_rows(d.qfrc_applied, np.stack([states[i][2] for i in idx_list]))
-      traj = []
-      for _ in range(nsteps):
-        mjw.step(m, d)
-        traj.append((d.qpos.numpy().copy(), d.qvel.numpy().copy(), d.qacc.numpy().copy(), [world_contacts(d, k) for k in range(len(idx_list))], d.overflow.numpy().copy()))
-      return traj
-
-    if sleep and sparse:
-      # regression (repaired defect c4777c0): the sleep-enabled (compacted) solve over a sparse model read an uninitialised
-      # qfrc_constraint buffer and was not even deterministic for ONE world
-      r1, r2 = run([0]), run([0])
-      acc.evals += 2
-      if not all(np.array_equal(a[0], b[0], equal_nan=False) for a, b in zip(r1, r2)):
-        acc.find("world 0 alone, twice, identical inputs: different (or NaN) trajectories with sleeping enabled and a sparse Jacobian", "forward.step",
-                 "nondeterministic-baseline", xml=xml)
-        acc.hit("nondeterministic-baseline")
-        continue
-    batch = run(list(range(nworld)))
-    perm = list(rng.permutation(nworld))
-    batch2 = run(perm)
-    acc.evals += 2
-    if any((t[4] != 0).any() for t in batch):
-      acc.hit("overflow-skipped")
-      continue
-    for w in range(nworld):
-      alone = run([w])
-      acc.evals += 1
-      pos_in_perm = perm.index(w)
-      lastbits = False
-      for s in range(nsteps):
-        if lastbits:
-          break   # from the first last-bit difference on, the two runs are different trajectories (contacts are compared after rounding)
-        for k, nm in enumerate(("qpos", "qvel", "qacc")):
-          a, b, b2 = alone[s][k][0], batch[s][k][w], batch2[s][k][pos_in_perm]
-          if not (np.array_equal(a, b) and np.array_equal(a, b2)):
-            if sparse and np.array_equal(b, b2) and np.allclose(a, b, rtol=2e-3, atol=2e-3 * (1 + np.abs(a).max())):
-              # recorded deviation: independent of the batch POSITION (b == b2 bitwise) but not of the batch SIZE, in the last bits:
-              # the sparse Newton Hessian J^T D J is accumulated in a number of row groups chosen from nworld (summation order)
-              acc.find(f"world {w}: {nm} at step {s} differs in the last bits between running alone and in a batch of {nworld} (max diff {np.abs(a - b).max():.3g}; same at every batch position)",
-                       "solver (_jtdaj_groups_per_world)", "batch-size-summation-order", xml=xml, world=w, step=s)
-              lastbits = True
-              break
-            acc.find(f"world {w}: {nm} at step {s} differs between running alone / at batch index {w} / at index {pos_in_perm} (max diff {max(np.abs(a - b).max(), np.abs(a - b2).max()):.3g})",
-                     "forward.step", "batch-dependence", xml=xml, world=w, step=s, sleep=sleep)
-            break
-        if not lastbits and alone[s][3][0] != batch[s][3][w]:
-          acc.find(f"world {w}: contact list at step {s} differs between alone and batch", "collision", "batch-contacts", xml=xml, world=w, step=s)
-      acc.distinct.add((c, w))
-    acc.hit("sleep" if sleep else "nosleep")
-    acc.sample({"nbody": int(mjm.nbody), "nworld": nworld, "perm": [int(x) for x in perm], "sleep": sleep})
+    _check_case(acc, rng, _tree_case(rng, c), c, nsteps)
+  # cloth scenes, kinds and the 'one world lifted' variant in rotation (own stream: the tree cases above do not depend on them)
+  frng = np.random.default_rng(ctx.seed * 1000 + 909)
+  for j in range(nflex_cases):
+    kind = FLEX_KINDS[(ctx.seed + 2 * j + j // 2) % len(FLEX_KINDS)]
+    nworld = 3 if nflex_cases <= 2 else int(frng.integers(2, 5))
+    xml, mjm, states, info = _flex_scene(frng, kind, nworld, lifted=(ctx.seed + j) % 2 == 1)
+    _check_flex_case(acc, frng, {"xml": xml, "mjm": mjm, "states": states, "nworld": nworld, "flex": info}, 1000 + j, flex_steps)
   return acc
 
 
 RULE = ("random trees over a floor (contacts, constraints), 25% with sleeping, 40% elliptic; 2-4 worlds with different states and applied forces; K steps; each world is also run alone and in a "
-        "permuted batch; qpos/qvel/qacc must be bit-identical and the per-world contact lists equal; cases with an overflow bit are skipped; distinct = (case, world)")
+        "permuted batch; qpos/qvel/qacc must be bit-identical and EVERY field of the world's contacts bitwise equal (rows sorted) as long as the states before the step were; then cloth scenes "
+        "(flexcomp grids placed by qpos) in rotation: two cloths overlapping on a floor with 0-2 fixed geoms / without any geom / with a third cloth / a folded self-colliding cloth; random flex "
+        "declaration order; every candidate group kind (geom-flex, flex-flex, self) occupied in every world, > MJ_MAXCONPAIR candidates per cloth pair (hit flex-pair-cap-active), every other scene "
+        "one world without cloth-pair candidates; worlds differ in qpos/qvel/qfrc_applied only; batch, permuted batch (never the identity) and each world alone stepped in lock-step and "
+        "re-synchronised bitwise to the batch after every step: contacts of every step bitwise equal as sets, states after the step equal to 2e-3 relative (contact ORDER within a world, hence "
+        "summation order, depends on the neighbours); cases with an overflow bit are skipped; distinct = (case, world[, step])")
 
 
 def correspondence(ctx):
-  acc = _run(ctx, 10 if ctx.thorough else 3, 6 if ctx.thorough else 3)
+  acc = _run(ctx, 10 if ctx.thorough else 3, 6 if ctx.thorough else 3, nflex_cases=4 if ctx.thorough else 2, flex_steps=4 if ctx.thorough else 2)
   return result(acc, RULE)
 
 
 def search(ctx, breaks):
-  acc = _run(ctx, 20, 6)
+  acc = _run(ctx, 20, 6, nflex_cases=8, flex_steps=3)
   return search_result(acc, "the same world alone / at another batch position / in a permuted batch (bitwise)")
